@@ -2,7 +2,7 @@
    Statements only. *)
 From Anydb Require Import Common.Base Gen.Consts Rawdb.AMap Rawdb.Alloc Rawdb.Crash Rawdb.CrashFacts
   Rawdb.CrashInv Rawdb.CrashSound Rawdb.CrashReopen Rawdb.CrashLibDefs Rawdb.CrashLib Rawdb.CrashExamples
-  Rawdb.AllocEvents Rawdb.AllocDisciplinedAll.
+  Rawdb.AllocEvents Rawdb.AllocDisciplinedAll Rawdb.AllocDisciplinedPunch.
 
 (* FULL statement (target): a trace accepted by the monitor is safe at every crash point (= every
    prefix) for every choice of page versions: the recovered regions are valid, pairwise disjoint
@@ -230,3 +230,36 @@ Print Assumptions C05_all_histories.
 Theorem C05_model_disciplined_example_crash_ops : forallb crash_op ex_history = true.
 Proof. exact ex_history_crash_ops. Qed.
 Print Assumptions C05_model_disciplined_example_crash_ops.
+
+(* LIB mode on every history of the model: the trace is cut as tc ++ t1 ++ lib_next p ++ rest (tc
+   ends with the last completed sync pair, no metadata sync in t1, the crash falls at point p);
+   the "never a mixture" clause of C05_lib holds with no hypothesis about the monitor *)
+Theorem C05_all_histories_lib :
+  forall orcs min_len ops, forallb crash_op ops = true ->
+  forall t0 t1 p rest,
+    let tc := t0 ++ [CDataSync; CMetaSync] in
+    trace_of_o orcs min_len ops = tc ++ t1 ++ lib_next p ++ rest ->
+    no_metasync t1 = true ->
+    let m0 := fst (mon_run mon_init tc) in
+    let m := fst (mon_run mon_init (tc ++ t1)) in
+    forall i sigma img, lib_slots p m sigma -> lib_data p m img ->
+      not_overwritten (dur_of m0 i) t1 = true ->
+      (sigma i = dur_of m0 i /\ agree_on (sigma i) img (m_vmem m0))
+      \/ (p = LInMetaSync /\ sigma i = latest_of m i /\ agree_on (sigma i) img (m_vmem m)).
+Proof. exact C05_all_histories_lib_proof. Qed.
+Print Assumptions C05_all_histories_lib.
+
+(* the same for any checkpoint t0 of the history after which no metadata sync completed *)
+Theorem C05_all_histories_lib_general :
+  forall orcs min_len ops, forallb crash_op ops = true ->
+  forall t0 t1 p rest, trace_of_o orcs min_len ops = t0 ++ t1 ++ lib_next p ++ rest ->
+    no_metasync t1 = true ->
+    let m0 := fst (mon_run mon_init t0) in
+    let m := fst (mon_run mon_init (t0 ++ t1)) in
+    forall i sigma img, lib_slots p m sigma -> lib_data p m img ->
+      pdata_misses (dur_of m0 i) m0 = true ->
+      not_overwritten (dur_of m0 i) t1 = true ->
+      (sigma i = dur_of m0 i /\ agree_on (sigma i) img (m_dmem m0))
+      \/ (p = LInMetaSync /\ sigma i = latest_of m i /\ agree_on (sigma i) img (m_vmem m)).
+Proof. exact C05_all_histories_lib_general_proof. Qed.
+Print Assumptions C05_all_histories_lib_general.
